@@ -19,6 +19,29 @@ NOT_BUILT = ("check not built yet in this round (planned in DESIGN.md section 9)
 NOT_APPLICABLE = {}
 
 CLAIMED = {
+    "C10": {
+        "text": "spec/Cache.tla (directory, history, half-second clock with integer mtime truncation, cache file as "
+                "chunks, request steps Probe/Load/Gen/SaveOpen/SaveWrite/Render) is model-checked exhaustively within "
+                "bounds (MC_C10: invariants NeverStale, NoLeak, ZeroMeansLive, OnlyCompleteLoads, action property "
+                "NoRefresh). TLC then supplies the histories: every behaviour up to a length (state dump with a history "
+                "variable) and longer random ones (tlc -simulate); each is replayed on a real directory through the "
+                "real server under a substituted clock and listdir, and the recorded history (listing per protocol, "
+                "whether the directory was enumerated, whether the cache file changed) is validated by TLC against "
+                "spec/trace/TraceC10.tla, which evaluates Faithful/Transparent/NeverStale/ExpiredUsed/ZeroMeansLive/"
+                "NoRefresh at every request. Histories are what the property quantifies over, so bounded-exhaustive "
+                "plus simulated histories bound to the code is the right level.",
+        "note": "Trusted: TLC; listing lexers and timestamp virtualisation in harness/cachelib.py; content universe of two "
+                "files with two metadata versions plus a fixed sub-directory; protocols Gopher, Gopher+ (+), HTTP.",
+    },
+    "C11": {
+        "text": "MC_C11 (spec/Cache.tla with two freely interleaved workers, Cut to any shorter prefix and Zero-fill at any "
+                "moment) is model-checked exhaustively within bounds; on the real code EVERY byte prefix 0..size-1 and a "
+                "zero-filled copy of real cache files replaces the file and the directory is requested again per "
+                "protocol; TLC validates each history against TraceC10 (Answered, Faithful, Harmless). Crash points are "
+                "enumerated completely for the sampled directories.",
+        "note": "Trusted: TLC; harness/cachelib.py lexers; abstraction of a byte prefix to 'fewer than Full chunks'. The "
+                "reader/writer race itself is exercised on real threads under C14.",
+    },
     "C19": {
         "text": "Exhaustive TLC model check of the start-up state machine (spec/Startup.tla, MC_C19: all 16 "
                 "chroot/setuid/setgid/TLS combinations x every failing call, OS permission model) AND every "
